@@ -94,6 +94,9 @@ func TestVerifStateStore(t *testing.T) {
 	for c := first; c < first+n; c++ {
 		r := rand.New(rand.NewSource(int64(seed)*1000003 + int64(c)))
 		g := &gen{r: r, prune: os.Getenv("VERIF_MODE") == "prune"}
+		if g.prune {
+			g.script = g.pruneScript()
+		}
 		runCase(w, c, func(h *harness, i int) (Op, bool) {
 			if i > length {
 				return Op{}, false
